@@ -15,7 +15,7 @@ import (
 
 // MConfig binds Mount.tla to a real mount.FS over mem.FS instances.
 type MConfig struct {
-	Config        // attribution / names / depth for the constituent trees
+	Config           // attribution / names / depth for the constituent trees
 	PropRoute string // C06: effect in the wrong FS, wrong result
 	Seed      int64
 	// Repeat: each read-only query is repeated this many times (sync.Map iteration orders)
